@@ -844,6 +844,75 @@ __xml_namespace__ = "https://dummy.com"
 ''',
     ),
     (
+        "targeted/membership-in-lists",
+        '''\
+from enum import Enum
+from typing import List, Optional
+
+from icontract import invariant, DBC
+
+
+class Priority(Enum):
+    Low = "LOW"
+    Normal = "NORMAL"
+    High = "HIGH"
+
+
+@invariant(
+    lambda self: self.default_channel in self.channels,
+    "Default channel must be one of the channels.",
+)
+@invariant(
+    lambda self: not (self.fallback_channel is not None)
+    or self.fallback_channel in self.channels,
+    "Fallback channel must be one of the channels.",
+)
+@invariant(
+    lambda self: not (self.muted_priority in self.priorities),
+    "Muted priority must not be among the priorities.",
+)
+@invariant(
+    lambda self: all(level in self.allowed_levels for level in self.levels),
+    "All levels must be allowed.",
+)
+@invariant(
+    lambda self: any(level in self.levels for level in self.allowed_levels)
+    or len(self.allowed_levels) == 0,
+    "Some allowed level must be used.",
+)
+class Subscription(DBC):
+    default_channel: str
+    channels: List[str]
+    fallback_channel: Optional[str]
+    muted_priority: Priority
+    priorities: List[Priority]
+    levels: List[int]
+    allowed_levels: List[int]
+
+    def __init__(
+        self,
+        default_channel: str,
+        channels: List[str],
+        muted_priority: Priority,
+        priorities: List[Priority],
+        levels: List[int],
+        allowed_levels: List[int],
+        fallback_channel: Optional[str] = None,
+    ) -> None:
+        self.default_channel = default_channel
+        self.channels = channels
+        self.muted_priority = muted_priority
+        self.priorities = priorities
+        self.levels = levels
+        self.allowed_levels = allowed_levels
+        self.fallback_channel = fallback_channel
+
+
+__version__ = "dummy"
+__xml_namespace__ = "https://dummy.com"
+''',
+    ),
+    (
         "targeted/grouping-of-boolean-and-arithmetic",
         '''\
 from typing import List, Optional
